@@ -39,10 +39,9 @@ func (e *CachedPointDataExtractor) Extract(point string) (*PointData, error) {
 	// getUsers:7#User_8
 
 	if strings.Contains(point, "#") {
-		idData := strings.Split(point, "#")
-		if len(idData) == 2 {
-			id = idData[1]
-		}
+		// the id is everything behind the first separator: ids are opaque and may contain one themselves
+		idData := strings.SplitN(point, "#", 2)
+		id = idData[1]
 
 		// use the index data without the id
 		field = idData[0]
